@@ -1095,12 +1095,17 @@ fn is_head(l: &str) -> bool {
 
 fn child(args: &[String]) -> i32 {
     unsafe {
-        let lim = libc::rlimit { rlim_cur: 8 << 30, rlim_max: 8 << 30 };
+        // (over HTTP every request is a connection of its own and the web server answers each on a thread of its pool
+        // that lingers for a few seconds: thousands of 2 MB stacks of address space at the rate of the history scripts)
+        let gb: u64 = if args.iter().any(|a| a == "--http") { 48 } else { 8 };
+        let lim = libc::rlimit { rlim_cur: gb << 30, rlim_max: gb << 30 };
         libc::setrlimit(libc::RLIMIT_AS, &lim);
         let core = libc::rlimit { rlim_cur: 0, rlim_max: 0 };
         libc::setrlimit(libc::RLIMIT_CORE, &core);
     }
-    std::panic::set_hook(Box::new(|_| {}));
+    if std::env::var("ZQ_SHOW_PANIC").is_err() {
+        std::panic::set_hook(Box::new(|_| {}));
+    }
     HTTP_MODE.store(args.iter().any(|a| a == "--http"), Ordering::Relaxed);
     if !clock_selftest() {
         eprintln!("webide-run: the wall clock could not be advanced (clock_gettime interposition not effective)");
@@ -1135,7 +1140,7 @@ fn child(args: &[String]) -> i32 {
             }
         }
         o.flush();
-        if HTTP_SEQ.load(Ordering::SeqCst) >= 20 && k + step < scripts.len() {
+        if HTTP_SEQ.load(Ordering::SeqCst) >= 6 && k + step < scripts.len() {
             return 75;
         }
     }
